@@ -392,8 +392,8 @@ def absorb(R, out):
 
 
 # ----------------------------------------------------------------------------------------------
-def main():
-    R = Run("C15", "every constant of unyt._unit_lookup_table.physical_constants x every alias x "
+def make_run():
+    return Run("C15", "every constant of unyt._unit_lookup_table.physical_constants x every alias x "
             "{plain,_mks,_cgs} on the imported package and in namespaces built by add_constants for "
             "registries with each built-in unit system, custom unit systems, registries with added "
             "units, modified base/derived units of their unit system and code units -- each namespace "
@@ -404,8 +404,11 @@ def main():
             "published values by uncertainty class.  non-trivial = every (history, step, constant, "
             "name, suffix)",
             "37 constants x all aliases x 3 suffixes x ~30 registry scenarios x histories of length "
-            "1-3 (quick) / +all ordered pairs of scenarios sharing a unit system and 40 random "
+            "1-3 (quick) / +all ordered pairs of scenarios sharing a unit system and 300 random "
             "histories of length 3-5 (thorough); rtol 1e-12")
+
+
+def main(R):
 
     # ---- D. histories in forked children (first, so the parent state they inherit is pristine)
     hists = []
@@ -435,7 +438,7 @@ def main():
                     if a != b and not any(h[1] == [a, b] for h in hists):
                         hists.append(("%s>%s" % (a, b), [a, b], "hist"))
         names = [s for s in SPECS]
-        for k in range(40):
+        for k in range(300):
             n = R.rng.randint(3, 5)
             h = [R.rng.choice(names) for _ in range(n)]
             hists.append(("random%d" % k, h, "random"))
@@ -704,4 +707,12 @@ def main():
 
 
 if __name__ == "__main__":
-    main()
+    _R = make_run()
+    try:
+        main(_R)
+    except SystemExit:
+        raise
+    except Exception as _e:   # noqa  (a driver error is a note, never a crash)
+        import traceback
+        _R.notes.append("driver error: %r %s" % (_e, traceback.format_exc()[-400:]))
+        _R.finish()
